@@ -345,3 +345,58 @@ theorem failed_statement_reported (fuel : Nat) (top : List PItem) (below : List 
     | (simp at hpe)
 
 end Rva
+
+namespace Rva
+
+/-- a result with `nodes` / `errs` (both collected in reverse) put in front of what it already holds -/
+def ParseOut.shift (nodes : List Node) (errs : List ParseErr) (o : ParseOut) : ParseOut :=
+  ⟨nodes.reverse ++ o.nodes, errs.reverse ++ o.errors, o.reader⟩
+
+theorem acc_branch (n : Nat) (st : List (List PItem)) (r : Reader)
+    (ih : ∀ (st : List (List PItem)) (r : Reader) (nodes : List Node) (errs : List ParseErr),
+      parseLoop n st r nodes errs = ParseOut.shift nodes errs (parseLoop n st r [] []))
+    (dn : List Node) (de : List ParseErr) (nodes : List Node) (errs : List ParseErr) :
+    parseLoop n st r (dn ++ nodes) (de ++ errs) = ParseOut.shift nodes errs (parseLoop n st r dn de) := by
+  rw [ih st r (dn ++ nodes) (de ++ errs), ih st r dn de]
+  simp [ParseOut.shift, List.reverse_append, List.append_assoc]
+
+/-- **C07 (`parseLoop_acc`).** What the parse loop has collected so far plays no part in what it
+    collects next: the result from any accumulators is the result from empty ones with the
+    accumulated nodes and errors in front. -/
+theorem parseLoop_acc (fuel : Nat) : ∀ (st : List (List PItem)) (r : Reader) (nodes : List Node)
+    (errs : List ParseErr),
+    parseLoop fuel st r nodes errs = ParseOut.shift nodes errs (parseLoop fuel st r [] []) := by
+  induction fuel with
+  | zero => intro st r nodes errs; simp [parseLoop, ParseOut.shift]
+  | succ n ih =>
+    intro st r nodes errs
+    cases st with
+    | nil => simp [parseLoop, ParseOut.shift]
+    | cons top below =>
+      cases hps : parseStep top with
+      | mk res rest =>
+        cases res with
+        | ok x =>
+          cases hi : x.includePath with
+          | none =>
+            simp only [parseLoop, hps, hi]
+            exact acc_branch n _ _ ih [x] [] nodes errs
+          | some path =>
+            cases himp : r.importFile path.val with
+            | mk ir r' =>
+              cases ir with
+              | ok ft =>
+                obtain ⟨fid, text⟩ := ft
+                simp only [parseLoop, hps, hi, himp]
+                exact acc_branch n _ _ ih [] [] nodes errs
+              | error e =>
+                simp only [parseLoop, hps, hi, himp]
+                exact acc_branch n _ _ ih [] [e.toParseErr path] nodes errs
+        | error e =>
+          cases e <;> simp only [parseLoop, hps] <;>
+            first
+            | exact acc_branch n _ _ ih [] [] nodes errs
+            | exact acc_branch n _ _ ih [] [_] nodes errs
+            | exact acc_branch n _ _ ih [_, _] [] nodes errs
+
+end Rva
